@@ -292,7 +292,7 @@ class CovRef(object):
                     problems.append(("cov:initial-notification-before-the-ack", {"key": key}))
 
         # ---- the active-subscription list
-        if exp.kind == "read":
+        if exp.kind == "read" and not any(p[0].startswith("cov:read-request-not-acknowledged") for p in problems):
             self._judge_listing(exp, listing, ctx, problems)
         return problems
 
